@@ -1095,8 +1095,9 @@ func (c *mchan) recv() (value, bool) {
 	if c.closed {
 		return nil, false
 	}
-	unsupported("receive would block forever under the run-to-completion goroutine model (no producer left)")
-	return nil, false
+	// every goroutine has already run to completion under this model: nothing can
+	// ever send on or close this channel, the receiver hangs
+	panic(pathAbort{"budget", "receive on an open, empty channel after every producer has finished: the receiver blocks forever"})
 }
 
 func (c *mchan) close() {
